@@ -502,6 +502,12 @@ where
                 _ => Res::Unsupported,
             }
         }
+        "dropprobe" => {
+            // dropprobe <id> <secret>...   (consumes the object)
+            let secrets: Vec<Vec<u8>> = op[2..].iter().map(|t| data(t, rs)).collect();
+            let Some(o) = objs.remove(&op[1]) else { return Res::Unsupported };
+            with_any!(o, m => drop_probe(m, &secrets))
+        }
         "debug" => {
             let Some(o) = objs.get(&op[1]) else { return Res::Unsupported };
             Res::Text(with_any!(o, m => format!("{:?}", m)))
